@@ -754,6 +754,37 @@ func init() {
 				}
 			}
 		}
+		// redundant parentheses at boundary sizes: chains of n operands, each operand in its own parentheses, and
+		// one operand nested d deep; the verdict and the extracted set must equal those of the plain chain
+		for _, n := range []int{2, 3, 7, 8, 9, 15, 16, 17, 18, 31, 32, 33, 64, 65, 100} {
+			terms := distinctTerms(5)
+			tt := texts(terms)
+			for _, op := range []string{" AND ", " OR "} {
+				plain, par := make([]string, n), make([]string, n)
+				for i := 0; i < n; i++ {
+					plain[i] = tt[i%len(tt)]
+					par[i] = "(" + tt[i%len(tt)] + ")"
+				}
+				e1, e2 := strings.Join(plain, op), strings.Join(par, op)
+				e3 := strings.Repeat("(", n) + tt[0] + strings.Repeat(")", n) + op + tt[1]
+				e4 := tt[0] + op + tt[1]
+				for _, pr := range [][2]string{{e1, e2}, {e4, e3}} {
+					for _, a := range subsetsOf(tt, 5) {
+						r1, r2 := implSat(pr[0], a), implSat(pr[1], a)
+						res.Evaluations++
+						count("many_groups")
+						if r1.String() != r2.String() {
+							fail(failure{Stream: "oracle", What: fmt.Sprintf("redundant parentheses changed Satisfies (%d groups)", n), Case: &kase{Expr: pr[1], ExprHex: hx(pr[1]), Allowed: a, Extra: map[string]string{"plain": pr[0]}}, Impl: r2.String(), Expected: r1.String()})
+							break
+						}
+					}
+					x1, x2 := implExt(pr[0]), implExt(pr[1])
+					if hxl(uniqSorted(x1.list)) != hxl(uniqSorted(x2.list)) || (x1.err != nil) != (x2.err != nil) {
+						fail(failure{Stream: "oracle", What: fmt.Sprintf("redundant parentheses changed the set ExtractLicenses returns (%d groups)", n), Case: &kase{Expr: pr[1], ExprHex: hx(pr[1]), Extra: map[string]string{"plain": pr[0]}}, Impl: x2.String(), Expected: x1.String()})
+					}
+				}
+			}
+		}
 	}
 	replays["C10"] = func(k *kase) *failure {
 		if k.Extra != nil && k.Extra["tree2"] != "" {
